@@ -34,6 +34,13 @@ def gen_cases(rng, quick):
             else:
                 res.append(rng.choice(DOC + [NOPROBE]))
         cases.append("O:" + ",".join("%x" % r for r in res))
+    # messages crossing the library boundary in both directions, with printf-like sequences in them
+    texts = ["100%cpu (%5d retries)", "%s", "%d%%", "rate 5% of %lu", "%%", "plain text", "%x %c %p %g",
+             "a%sb%sc%s%s%s%s%s%s", "%5.3f%-10s", "tail%"]
+    for i, t in enumerate(texts):
+        for st in ("4", "3", "5", "9", "-3", "-9", "-64", "2"):  # not 1: kdump_err adds strerror for KDUMP_ERR_SYSTEM
+            old = "" if (i + len(st)) % 2 else rng.choice(["earlier: 50%", "old %s text", "x"])
+            cases.append("X:%s:%s:%s" % (st, t.encode().hex(), old.encode().hex() or "-"))
     for nrows in (0, 1, 2, 3, 0, 7):
         cases.append("V:%d" % nrows)
     return cases
